@@ -271,7 +271,7 @@ type execStats struct {
 
 var stAppliedWarn, stApplied, stSame, stRejected atomic.Int64
 
-func exec(version string, h []event) (string, string, *seqx.Failure) {
+func exec(version string, h []event, verifyAll bool) (string, string, *seqx.Failure) {
 	dir := filepath.Join(workRoot, fmt.Sprintf("x%d", execSeq.Add(1)))
 	s, err := newSubject(dir, byID(cfgContents, "V0"), byID(rulesContents, "R0"), version)
 	if err != nil {
@@ -312,6 +312,16 @@ func exec(version string, h []event) (string, string, *seqx.Failure) {
 		}
 		after := snapshot(s.cfg, s.dir)
 		n := [2]int{s.calls[0] - calls0[0], s.calls[1] - calls0[1]}
+		if step < len(h)-1 && !verifyAll {
+			// a proper prefix: BFS has already executed exactly this prefix as a history of its own and the
+			// oracle passed at each of its steps (a failing history is never expanded), so only the model is
+			// advanced here. All contents differ in at least one sampled getter, so "getters changed" is
+			// exactly "applied".
+			if after != before {
+				applied = disk
+			}
+			continue
+		}
 
 		oc, warned, oerr := startupOracle(s.cfgPath, s.rulesPath, version)
 		accept := oc != nil
@@ -337,7 +347,7 @@ func exec(version string, h []event) (string, string, *seqx.Failure) {
 			}
 			if after != want {
 				if after == before {
-					return "", "", &seqx.Failure{Sig: fmt.Sprintf("changed+startup-accepts(%s):not-applied:%s:%s/%s", startup, which, cc.Class, rc.Class),
+					return "", "", &seqx.Failure{Sig: fmt.Sprintf("changed+startup-accepts(%s):not-applied:%s", startup, blame(which, cc, rc)),
 						What: where + ": startup (config.NewConfig on the same files) accepts this changed content" + warnNote(warned, oerr) + " but the reload did not apply it; e.g. " + firstDiff(after, want)}
 				}
 				return "", "", &seqx.Failure{Sig: fmt.Sprintf("applied:getters-differ-from-startup:%s:%s", which, diffNames(after, want)),
@@ -372,7 +382,7 @@ func exec(version string, h []event) (string, string, *seqx.Failure) {
 			stSame.Add(1)
 		default: // changed, startup rejects
 			if after != before {
-				return "", "", &seqx.Failure{Sig: fmt.Sprintf("startup-rejects:applied-anyway:%s:%s/%s", which, cc.Class, rc.Class),
+				return "", "", &seqx.Failure{Sig: "startup-rejects:applied-anyway:" + blame(which, cc, rc),
 					What: where + ": startup rejects these files (" + trunc(errStr(oerr)) + ") but the reload changed the running configuration: " + firstDiff(before, after)}
 			}
 			outcome = "rejected:" + cc.Class + "/" + rc.Class
@@ -382,6 +392,22 @@ func exec(version string, h []event) (string, string, *seqx.Failure) {
 	hc, hr := s.cfg.GetHashes()
 	canon := strings.Join([]string{version, disk[0], disk[1], applied[0], applied[1], hc, hr, digest(snapshot(s.cfg, s.dir))}, "|")
 	return canon, outcome, nil
+}
+
+// blame names the failing input class: the non-valid content classes on disk, or - when everything on disk
+// is plain valid content - which file(s) changed.
+func blame(which string, cc, rc content) string {
+	var p []string
+	if cc.Class != "valid" {
+		p = append(p, "config["+cc.Class+"]")
+	}
+	if rc.Class != "valid" {
+		p = append(p, "rules["+rc.Class+"]")
+	}
+	if len(p) == 0 {
+		return which + "[valid]"
+	}
+	return strings.Join(p, "+")
 }
 
 func warnNote(w bool, err error) string {
@@ -398,6 +424,42 @@ func errStr(err error) string {
 	return strings.Join(strings.Fields(err.Error()), " ")
 }
 
+func replayArg() string {
+	for i, a := range os.Args {
+		if a == "--replay" && i+1 < len(os.Args) {
+			return os.Args[i+1]
+		}
+	}
+	return ""
+}
+
+// replay re-executes one recorded history (oracle checked at every step) and exits 1 if it still fails.
+func replay(path string) {
+	b, err := os.ReadFile(path)
+	if err != nil {
+		ev.Harness("replay: %v", err)
+	}
+	var rec struct {
+		Signature string `json:"signature"`
+		Replay    struct {
+			Scenario string  `json:"scenario"`
+			History  []event `json:"history"`
+		} `json:"replay"`
+	}
+	if err := json.Unmarshal(b, &rec); err != nil {
+		ev.Harness("replay: %v", err)
+	}
+	version := strings.TrimPrefix(rec.Replay.Scenario, "reload@")
+	_, outcome, f := exec(version, rec.Replay.History, true)
+	os.RemoveAll(workRoot)
+	if f != nil {
+		fmt.Printf("VIOLATION property=C27 replay=%s\n  detail: %s :: %s\n", path, f.Sig, f.What)
+		os.Exit(1)
+	}
+	fmt.Printf("replay of %v as version %s: no violation (last outcome %s)\n", rec.Replay.History, version, outcome)
+	os.Exit(0)
+}
+
 func main() {
 	r := ev.New("C27", "model_checking")
 	workRoot = os.Getenv("VERIF_WORK")
@@ -411,6 +473,9 @@ func main() {
 	}
 	defer os.RemoveAll(workRoot)
 
+	if path := replayArg(); path != "" {
+		replay(path)
+	}
 	nCfg, nRules := ev.Pick(r, 8, len(cfgContents)), ev.Pick(r, 6, len(rulesContents))
 	var alphabet []event
 	alphabet = append(alphabet, event{Op: "reload"})
@@ -429,8 +494,8 @@ func main() {
 
 	// determinism self-check: one fixed history executed twice must give the same canonical state
 	probe := []event{{Op: "write", File: "config", C: "V1"}, {Op: "reload"}, {Op: "write", File: "rules", C: "R2"}, {Op: "pubsubReload"}, {Op: "reload"}}
-	c1, o1, f1 := exec(versions[0], probe)
-	c2, o2, f2 := exec(versions[0], probe)
+	c1, o1, f1 := exec(versions[0], probe, true)
+	c2, o2, f2 := exec(versions[0], probe, true)
 	if c1 != c2 || o1 != o2 || (f1 == nil) != (f2 == nil) {
 		ev.Harness("replaying one history twice diverged: %q/%q vs %q/%q", c1, o1, c2, o2)
 	}
@@ -440,7 +505,7 @@ func main() {
 		seqx.Explore(r, seqx.Scenario[event]{
 			Name:     "reload@" + v,
 			Enabled:  func(h []event) []event { return alphabet },
-			Exec:     func(h []event) (string, string, *seqx.Failure) { return exec(v, h) },
+			Exec:     func(h []event) (string, string, *seqx.Failure) { return exec(v, h, false) },
 			MaxDepth: depth, Workers: 16,
 		})
 	}
